@@ -21,7 +21,7 @@ struct Obj {
     slots: Vec<Option<Backref>>,
 }
 
-struct World {
+pub(crate) struct World {
     objs: Vec<Option<Obj>>,
     base_serial: usize,               // chunks created before this case
     statics: Vec<(usize, usize)>,     // leaked caller buffers
@@ -29,7 +29,7 @@ struct World {
     base_bytes: usize,
 }
 
-fn leak(b: Vec<u8>) -> &'static [u8] {
+pub(crate) fn leak(b: Vec<u8>) -> &'static [u8] {
     Box::leak(b.into_boxed_slice())
 }
 
@@ -58,76 +58,85 @@ impl World {
         -1 // an anchor or a cache refers to a chunk that is not live
     }
 
+    /// The seven fields of one OwningIovec; false if a slice lies outside live memory.
+    pub(crate) fn observe_one(&mut self, iov: &OwningIovec<'_>, obs: &mut Obs) -> bool {
+        let mut mem_ok = true;
+        let (slices, anchors, cache, backrefs) = iov.verif_view();
+        let (total, len, ok, nstable) = (iov.total_size(), iov.len(), iov.iovs().is_ok(), iov.stable_prefix().len());
+        obs.push(vec![total as i128, len as i128, ok as i128, nstable as i128]);
+        obs.push(slices.iter().map(|s| s.1 as i128).collect());
+        let mut bytes = Vec::new();
+        let mut cids = Vec::new();
+        for (addr, l) in &slices {
+            let (cid, start, valid) = self.chunk_of(*addr, *l);
+            mem_ok &= valid;
+            if valid {
+                let s = unsafe { std::slice::from_raw_parts(*addr as *const u8, *l) };
+                bytes.extend(s.iter().map(|b| *b as i128));
+            }
+            cids.push(cid);
+            cids.push(if cid == 0 { 0 } else { (*addr - start) as i128 });
+        }
+        obs.push(bytes);
+        let mut a = Vec::new();
+        for (count, chunk) in &anchors {
+            a.push(*count as i128);
+            a.push(self.chunk_id(*chunk));
+        }
+        obs.push(a);
+        obs.push(cids);
+        obs.push(match cache {
+            None => vec![],
+            Some((s, b, e)) => vec![self.chunk_id(s), (e - s) as i128, (b - s) as i128],
+        });
+        let mut br = Vec::new();
+        for (end, idx, begin, l) in backrefs {
+            br.extend([end as i128, idx as i128, begin as i128, l as i128]);
+        }
+        obs.push(br);
+        mem_ok
+    }
+    pub(crate) fn globals(&self, mem_ok: bool) -> Vec<i128> {
+        vec![
+            (ByteArena::num_live_chunks() - self.base_chunks) as i128,
+            (ByteArena::num_live_bytes() - self.base_bytes) as i128,
+            mem_ok as i128,
+        ]
+    }
+
     fn observe(&mut self, obs: &mut Obs) {
         let mut mem_ok = true;
         for i in 0..NOBJ {
-            let view = self.objs[i].as_ref().map(|o| {
-                let v = o.iov.verif_view();
-                (
-                    v,
-                    o.iov.total_size(),
-                    o.iov.len(),
-                    o.iov.iovs().is_ok(),
-                    o.iov.stable_prefix().len(),
-                )
-            });
-            match view {
+            match self.objs[i].take() {
                 None => {
                     for _ in 0..7 {
                         obs.push(vec![]);
                     }
                 }
-                Some(((slices, anchors, cache, backrefs), total, len, ok, nstable)) => {
-                    obs.push(vec![total as i128, len as i128, ok as i128, nstable as i128]);
-                    obs.push(slices.iter().map(|s| s.1 as i128).collect());
-                    let mut bytes = Vec::new();
-                    let mut cids = Vec::new();
-                    for (addr, l) in &slices {
-                        let (cid, start, valid) = self.chunk_of(*addr, *l);
-                        mem_ok &= valid;
-                        if valid {
-                            let s = unsafe { std::slice::from_raw_parts(*addr as *const u8, *l) };
-                            bytes.extend(s.iter().map(|b| *b as i128));
-                        }
-                        cids.push(cid);
-                        cids.push(if cid == 0 { 0 } else { (*addr - start) as i128 });
-                    }
-                    obs.push(bytes);
-                    let mut a = Vec::new();
-                    for (count, chunk) in &anchors {
-                        a.push(*count as i128);
-                        a.push(self.chunk_id(*chunk));
-                    }
-                    obs.push(a);
-                    obs.push(cids);
-                    obs.push(match cache {
-                        None => vec![],
-                        Some((s, b, e)) => vec![self.chunk_id(s), (e - s) as i128, (b - s) as i128],
-                    });
-                    let mut br = Vec::new();
-                    for (end, idx, begin, l) in backrefs {
-                        br.extend([end as i128, idx as i128, begin as i128, l as i128]);
-                    }
-                    obs.push(br);
+                Some(o) => {
+                    mem_ok &= self.observe_one(&o.iov, obs);
+                    self.objs[i] = Some(o);
                 }
             }
         }
-        obs.push(vec![
-            (ByteArena::num_live_chunks() - self.base_chunks) as i128,
-            (ByteArena::num_live_bytes() - self.base_bytes) as i128,
-            mem_ok as i128,
-        ]);
+        obs.push(self.globals(mem_ok));
+    }
+    pub(crate) fn fresh() -> World {
+        World {
+            objs: (0..NOBJ).map(|_| None).collect(),
+            base_serial: ByteArena::verif_live_chunks().1,
+            statics: Vec::new(),
+            base_chunks: ByteArena::num_live_chunks(),
+            base_bytes: ByteArena::num_live_bytes(),
+        }
+    }
+    pub(crate) fn add_static(&mut self, d: &'static [u8]) {
+        self.statics.push((d.as_ptr() as usize, d.as_ptr() as usize + d.len()));
     }
 }
 
 pub fn run(line: &str) -> Obs {
-    let mut w = World {
-        objs: (0..NOBJ).map(|_| None).collect(),
-        base_serial: ByteArena::verif_live_chunks().1,
-        statics: Vec::new(),
-        base_chunks: ByteArena::num_live_chunks(),
-        base_bytes: ByteArena::num_live_bytes(),
-    };
+    let mut w = World::fresh();
     let mut obs: Obs = Vec::new();
     for tok in line.split_whitespace() {
         let (i, op) = tok[1..].split_once(':').unwrap();
